@@ -49,6 +49,30 @@ Definition aggi_SumInventory_update : fdef :=
      f_body := [(SAssign (TName "value") (XCall (XIndex (XAttr (XName "self") "operands") (XConst (PInt 0))) [(XName "context")] None)); (SIf (XCompare (XName "value") [(CIsNot, (XConst PNone))]) [(SAssign (TName "$slot") (XIndex (XName "store") (XAttr (XName "self") "handle"))); (SExpr (XMethod (TName "$slot") "add_inventory" [(XName "value")])); (SAssign (TName "store") (XPrim "stmt:setitem" [(XName "store"); (XAttr (XName "self") "handle"); (XName "$slot")]))] []); (SReturn (Some (XName "store")))];
      f_gen := false |}.
 
+(* beanquery.query_env.First.initialize; parameters: self, store *)
+Definition aggi_First_initialize : fdef :=
+  {| f_params := ["self"; "store"];
+     f_body := [(SAssign (TName "store") (XPrim "stmt:setitem" [(XName "store"); (XAttr (XName "self") "handle"); (XConst PNone)])); (SReturn (Some (XName "store")))];
+     f_gen := false |}.
+
+(* beanquery.query_env.First.update; parameters: self, store, context *)
+Definition aggi_First_update : fdef :=
+  {| f_params := ["self"; "store"; "context"];
+     f_body := [(SIf (XCompare (XIndex (XName "store") (XAttr (XName "self") "handle")) [(CIs, (XConst PNone))]) [(SAssign (TName "value") (XCall (XIndex (XAttr (XName "self") "operands") (XConst (PInt 0))) [(XName "context")] None)); (SAssign (TName "store") (XPrim "stmt:setitem" [(XName "store"); (XAttr (XName "self") "handle"); (XName "value")]))] []); (SReturn (Some (XName "store")))];
+     f_gen := false |}.
+
+(* beanquery.query_env.Last.initialize; parameters: self, store *)
+Definition aggi_Last_initialize : fdef :=
+  {| f_params := ["self"; "store"];
+     f_body := [(SAssign (TName "store") (XPrim "stmt:setitem" [(XName "store"); (XAttr (XName "self") "handle"); (XConst PNone)])); (SReturn (Some (XName "store")))];
+     f_gen := false |}.
+
+(* beanquery.query_env.Last.update; parameters: self, store, context *)
+Definition aggi_Last_update : fdef :=
+  {| f_params := ["self"; "store"; "context"];
+     f_body := [(SAssign (TName "value") (XCall (XIndex (XAttr (XName "self") "operands") (XConst (PInt 0))) [(XName "context")] None)); (SAssign (TName "store") (XPrim "stmt:setitem" [(XName "store"); (XAttr (XName "self") "handle"); (XName "value")])); (SReturn (Some (XName "store")))];
+     f_gen := false |}.
+
 Definition refs : list (nat * string) :=
   [].
 
@@ -68,3 +92,17 @@ Definition agginv_classes : list (string * string * string * aggcls) :=
    calls for the fresh accumulator, and whether calling it gave a new empty beancount Inventory *)
 Definition agginv_dtypes : list (string * string * bool) :=
   [("beanquery.query_env.SumAmount", "beancount.core.inventory.Inventory", true); ("beanquery.query_env.SumPosition", "beancount.core.inventory.Inventory", true); ("beanquery.query_env.SumInventory", "beancount.core.inventory.Inventory", true)].
+
+(* bld-inv2: EVERY overload registered under `first` / `last` in the live query_compile.FUNCTIONS (name, class, argument types,
+   the function each protocol method resolves to through the MRO of the live class) *)
+Definition class_First : aggcls :=
+  {| c_allocate := aggi_EvalAggregator_allocate; c_initialize := aggi_First_initialize; c_update := aggi_First_update; c_finalize := aggi_EvalAggregator_finalize; c_call := aggi_EvalAggregator_call |}.
+Definition class_Last : aggcls :=
+  {| c_allocate := aggi_EvalAggregator_allocate; c_initialize := aggi_Last_initialize; c_update := aggi_Last_update; c_finalize := aggi_EvalAggregator_finalize; c_call := aggi_EvalAggregator_call |}.
+Definition first_last_overloads : list (string * string * string * aggcls) :=
+  [("first", "beanquery.query_env.First", "any", class_First); ("last", "beanquery.query_env.Last", "any", class_Last)].
+
+(* what the live types.function_lookup(FUNCTIONS, name, [operand of that datatype]) returns, for every datatype of the registry
+   and Inventory / Position / Amount *)
+Definition first_last_dispatch : list (string * string * string) :=
+  [("first", "beancount.core.amount.Amount", "beanquery.query_env.First"); ("first", "beancount.core.inventory.Inventory", "beanquery.query_env.First"); ("first", "beancount.core.position.Position", "beanquery.query_env.First"); ("first", "builtins.bool", "beanquery.query_env.First"); ("first", "builtins.dict", "beanquery.query_env.First"); ("first", "builtins.int", "beanquery.query_env.First"); ("first", "builtins.list", "beanquery.query_env.First"); ("first", "builtins.object", "beanquery.query_env.First"); ("first", "builtins.set", "beanquery.query_env.First"); ("first", "builtins.str", "beanquery.query_env.First"); ("first", "datetime.date", "beanquery.query_env.First"); ("first", "dateutil.relativedelta.relativedelta", "beanquery.query_env.First"); ("first", "decimal.Decimal", "beanquery.query_env.First"); ("last", "beancount.core.amount.Amount", "beanquery.query_env.Last"); ("last", "beancount.core.inventory.Inventory", "beanquery.query_env.Last"); ("last", "beancount.core.position.Position", "beanquery.query_env.Last"); ("last", "builtins.bool", "beanquery.query_env.Last"); ("last", "builtins.dict", "beanquery.query_env.Last"); ("last", "builtins.int", "beanquery.query_env.Last"); ("last", "builtins.list", "beanquery.query_env.Last"); ("last", "builtins.object", "beanquery.query_env.Last"); ("last", "builtins.set", "beanquery.query_env.Last"); ("last", "builtins.str", "beanquery.query_env.Last"); ("last", "datetime.date", "beanquery.query_env.Last"); ("last", "dateutil.relativedelta.relativedelta", "beanquery.query_env.Last"); ("last", "decimal.Decimal", "beanquery.query_env.Last")].
